@@ -29,9 +29,11 @@ def variant_ok(pname, info, q):
         return False
     if fn in ('calculate_r3', 'calculate_shear') and q.order != 'r3':
         return False
-    if fn == 'B_mag':
+    if fn == 'B_mag' or fn.startswith('Frenet_to_cylindrical_') :
         if (var.startswith('r1')) != (q.order == 'r1'):
             return False
+    if fn in ('Frenet_to_cylindrical', 'to_RZ') and var != q.order:
+        return False
     if fn == 'calculate_shear':
         sym = q.sigma0 == 0 and np.max(np.abs(q.rs)) == 0 and np.max(np.abs(q.zc)) == 0
         if (var == 'sym') != bool(sym):
@@ -68,6 +70,30 @@ def extra_inputs(pname, info, q, rng):
         ex['_bmag'] = float(q.B_mag(ex['r'], ex['theta'], ex['phi_arg'], Boozer_toroidal=bt))
         if q.order != 'r1':
             ex['B20_at_phi'] = float(q.B20_spline(ex['phi_arg']))
+    if fn in ('Frenet_to_cylindrical_residual_func', 'Frenet_to_cylindrical_1_point'):
+        # build the splines the way Frenet_to_cylindrical does for one poloidal angle, then evaluate everything at one phi0
+        r_, th_ = 0.04, 0.8
+        X = r_ * (q.X1c_untwisted * np.cos(th_) + q.X1s_untwisted * np.sin(th_)); Y = r_ * (q.Y1c_untwisted * np.cos(th_) + q.Y1s_untwisted * np.sin(th_)); Zs = 0 * X
+        if q.order != 'r1':
+            X = X + r_ * r_ * (q.X20_untwisted + q.X2c_untwisted * np.cos(2 * th_) + q.X2s_untwisted * np.sin(2 * th_))
+            Y = Y + r_ * r_ * (q.Y20_untwisted + q.Y2c_untwisted * np.cos(2 * th_) + q.Y2s_untwisted * np.sin(2 * th_))
+            Zs = Zs + r_ * r_ * (q.Z20_untwisted + q.Z2c_untwisted * np.cos(2 * th_) + q.Z2s_untwisted * np.sin(2 * th_))
+        q.X_spline = q.convert_to_spline(X); q.Y_spline = q.convert_to_spline(Y); q.Z_spline = q.convert_to_spline(Zs)
+        ex['phi0'] = 0.31; ex['phi_target'] = 0.29
+        for nm in info['inputs']:
+            if nm.endswith('@phi0'):
+                ex[nm] = float(getattr(q, nm[:-5])(ex['phi0']))
+        import qsc.Frenet_to_cylindrical as FC
+        if fn.endswith('1_point'):
+            R_, z_, p_ = FC.Frenet_to_cylindrical_1_point(ex['phi0'], q)
+            ex['atan2'] = float(p_); ex['_ref'] = {'s.ret0': float(R_), 's.ret1': float(z_), 's.ret2': float(p_)}
+        else:
+            res_ = FC.Frenet_to_cylindrical_residual_func(ex['phi0'], ex['phi_target'], q)
+            ex['atan2'] = float(res_ + ex['phi_target']); ex['_ref'] = {'s.ret': float(res_)}
+    if fn in ('Frenet_to_cylindrical', 'to_RZ'):
+        ex['r'] = 0.05; ex['theta'] = 0.7; ex['pt_r'] = 0.05; ex['pt_theta'] = 0.7; ex['pt_phi0'] = 0.2
+    if fn == 'to_vmec':
+        ex['r'] = 0.06
     if fn == 'solve_sigma_equation':
         x = np.array(q.sigma, dtype=float, copy=True)
         x[0] = q.iota
@@ -123,6 +149,25 @@ def reference_outputs(pname, info, q, ex):
     if fn == 'B_mag':
         ref['s.ret'] = ex['_bmag']
         return ref
+    if fn in ('Frenet_to_cylindrical_residual_func', 'Frenet_to_cylindrical_1_point'):
+        return dict(ex['_ref'])
+    if fn in ('Frenet_to_cylindrical', 'to_RZ'):
+        r_, th_ = 0.05, 0.7
+        X = r_ * (q.X1c_untwisted * np.cos(th_) + q.X1s_untwisted * np.sin(th_)); Y = r_ * (q.Y1c_untwisted * np.cos(th_) + q.Y1s_untwisted * np.sin(th_)); Zs = 0 * X
+        if q.order != 'r1':
+            X = X + r_ * r_ * (q.X20_untwisted + q.X2c_untwisted * np.cos(2 * th_) + q.X2s_untwisted * np.sin(2 * th_))
+            Y = Y + r_ * r_ * (q.Y20_untwisted + q.Y2c_untwisted * np.cos(2 * th_) + q.Y2s_untwisted * np.sin(2 * th_))
+            Zs = Zs + r_ * r_ * (q.Z20_untwisted + q.Z2c_untwisted * np.cos(2 * th_) + q.Z2s_untwisted * np.sin(2 * th_))
+        if q.order == 'r3':
+            r3 = r_ ** 3
+            X = X + r3 * (q.X3c1_untwisted * np.cos(th_) + q.X3s1_untwisted * np.sin(th_) + q.X3c3_untwisted * np.cos(3 * th_) + q.X3s3_untwisted * np.sin(3 * th_))
+            Y = Y + r3 * (q.Y3c1_untwisted * np.cos(th_) + q.Y3s1_untwisted * np.sin(th_) + q.Y3c3_untwisted * np.cos(3 * th_) + q.Y3s3_untwisted * np.sin(3 * th_))
+            Zs = Zs + r3 * (q.Z3c1_untwisted * np.cos(th_) + q.Z3s1_untwisted * np.sin(th_) + q.Z3c3_untwisted * np.cos(3 * th_) + q.Z3s3_untwisted * np.sin(3 * th_))
+        lv = info.get('last_version', {})
+        return {lv.get('X_at_this_theta', 'X_at_this_theta'): X, lv.get('Y_at_this_theta', 'Y_at_this_theta'): Y, lv.get('Z_at_this_theta', 'Z_at_this_theta'): Zs}
+    if fn == 'to_vmec':
+        r_ = ex['r']
+        return {'phiedge': np.pi * r_ * r_ * q.spsi * q.Bbar, 'am_0': -q.p2 * r_ * r_, 'am_1': q.p2 * r_ * r_, 'curtor': 2 * np.pi / (4 * np.pi * 1e-7) * q.I2 * r_ * r_}
     if fn in ('Bfield_cylindrical', 'Bfield_cartesian', 'grad_B_tensor_cartesian',
               'grad_grad_B_tensor_cylindrical', 'grad_grad_B_tensor_cartesian'):
         if fn.startswith('Bfield'):
